@@ -33,9 +33,9 @@ MANIFEST = {
     "text": "TLC model-checks the results store tla/Store.tla (existing directories immutable, fresh directory or raise, round trip; "
             "overwriting is a named wrong design) and generates save/load histories with forced name collisions that are replayed in a scratch "
             "membrane directory; directory digests and loaded objects are validated by TLC; curves, permeance functions and conditions are "
-            "round-tripped with values over 1e-9..1e3 and None-valued optional fields.",
+            "round-tripped with values over 1e-9..1e3 and None-valued optional fields. tlapm proves the store and membrane-directory properties for arbitrary sets of names and any history; the thorough tier adds Apalache inductive checks of typed copies.",
     "note": "Histories from TLC's simulator (seeded). Trusted: TLC, Java overrides, recorder (md5, projection functions).",
-    "technique": "TLA+ store state machine + TLC (exhaustive + simulation-generated histories replayed) + TLC validation of recorded saves/loads",
+    "technique": "TLA+ store state machine + TLC (exhaustive + simulation-generated histories replayed) + TLC validation of recorded saves/loads + TLAPS proofs (tlapm) + Apalache inductive checks",
 }
 
 
